@@ -110,18 +110,18 @@ Qed.
 (* ---- lookup ------------------------------------------------------------------------------------------- *)
 Lemma lookup_found fs cwd rel dirs p :
   lookup fs cwd rel dirs = Some p ->
-  exists l1 d l2, dirs = (l1 ++ d :: l2)%list /\ p = join_path d rel /\ fs_exists fs cwd p = true /\
-                  Forall (fun d' => fs_exists fs cwd (join_path d' rel) = false) l1.
+  exists l1 d l2, dirs = (l1 ++ d :: l2)%list /\ p = join_path d rel /\ fs_isfile fs cwd p = true /\
+                  Forall (fun d' => fs_isfile fs cwd (join_path d' rel) = false) l1.
 Proof.
   induction dirs as [|d dirs IH]; cbn [lookup]; [discriminate|].
-  destruct (fs_exists fs cwd (join_path d rel)) eqn:E.
+  destruct (fs_isfile fs cwd (join_path d rel)) eqn:E.
   - intros H. injection H as <-. exists [], d, dirs. repeat split; auto.
   - intros H. destruct (IH H) as (l1 & d' & l2 & -> & -> & Hex & Hall).
     exists (d :: l1), d', l2. repeat split; auto.
 Qed.
 Lemma lookup_missing fs cwd rel dirs :
-  lookup fs cwd rel dirs = None -> Forall (fun d => fs_exists fs cwd (join_path d rel) = false) dirs.
+  lookup fs cwd rel dirs = None -> Forall (fun d => fs_isfile fs cwd (join_path d rel) = false) dirs.
 Proof.
   induction dirs as [|d dirs IH]; cbn [lookup]; [constructor|].
-  destruct (fs_exists fs cwd (join_path d rel)) eqn:E; [discriminate|]. intros H. constructor; auto.
+  destruct (fs_isfile fs cwd (join_path d rel)) eqn:E; [discriminate|]. intros H. constructor; auto.
 Qed.
